@@ -22,13 +22,15 @@ import (
 // redirect to the authenticator and confirms (or tries to), then reuses the saved proxy cookie.
 
 type c19World struct {
-	proxy     *harness.ProxyEnv
-	auth      *harness.AuthEnv
-	authSrv   *httptest.Server
-	revoked   bool
-	noRefresh bool // the IdP issues no refresh token (no offline_access)
-	tokenGen  int
-	V         time.Duration
+	proxy        *harness.ProxyEnv
+	auth         *harness.AuthEnv
+	authSrv      *httptest.Server
+	revoked      bool
+	revokeCalls  int
+	revokeFailed bool
+	noRefresh    bool // the IdP issues no refresh token (no offline_access)
+	tokenGen     int
+	V            time.Duration
 }
 
 func newC19World() *c19World {
@@ -75,7 +77,7 @@ func pathQuery(raw string) string {
 
 // login drives the whole chain like a browser and returns the proxy and authenticator cookies.
 func (w *c19World) login(revokeAnswer func() harness.AuthAnswer) (proxyCookie, authCookie string, err error) {
-	w.revoked = false
+	w.revoked, w.revokeFailed, w.revokeCalls = false, false, 0
 	w.auth.IdP.Answer = func(c *harness.IdPCall) harness.AuthAnswer {
 		a := ans(500, "unexpected")
 		switch c.Endpoint {
@@ -96,7 +98,12 @@ func (w *c19World) login(revokeAnswer func() harness.AuthAnswer) (proxyCookie, a
 			a = ans(200, fmt.Sprintf(`{"active":%v}`, !w.revoked))
 		case "revoke":
 			a = revokeAnswer()
-			if a.Status == 200 && !a.Reset {
+			w.revokeCalls++
+			if a.Status != 200 || a.Reset {
+				w.revokeFailed = true
+			}
+			// (the grant counts as revoked only if no revocation request of this sign-out was refused)
+			if a.Status == 200 && !a.Reset && !w.revokeFailed {
 				w.revoked = true
 			}
 		}
@@ -158,7 +165,9 @@ func c19Run(c *fw.Ctx) {
 		name string
 		a    harness.AuthAnswer
 	}{{"ok", ans(200, "{}")}, {"bad-request", ans(400, `{"error":"invalid_request"}`)}, {"server-error", ans(500, "boom")}, {"unavailable", ans(503, "unavailable")}, {"rate-limited", ans(429, "slow")}, {"reset", harness.AuthAnswer{Reset: true}},
-		{"unauthorized", ans(401, `{"error":"invalid_client"}`)}, {"forbidden", ans(403, "forbidden")}, {"not-found", ans(404, "not found")}}
+		{"unauthorized", ans(401, `{"error":"invalid_client"}`)}, {"forbidden", ans(403, "forbidden")}, {"not-found", ans(404, "not found")},
+		// (a provider that revokes several tokens one after the other: the first request fails, later ones succeed)
+		{"first-call-unavailable-then-ok", ans(503, "unavailable")}}
 	posts := []string{"with-session-cookie", "no-cookie", "forged-cookie"}
 	sigs := []string{"fresh", "replayed-after-1s", "replayed-after-301s", "tampered-sig", "tampered-redirect", "out-of-domain-redirect"}
 	reuses := []int64{10, 70}
@@ -183,7 +192,14 @@ func c19Run(c *fw.Ctx) {
 		before := befores[x.Choose("before-sign-out", len(befores))]
 		w.noRefresh = issued[x.Choose("idp-issues", len(issued))] == "without-refresh-token"
 		setNow(0)
-		P, A, err := w.login(func() harness.AuthAnswer { return rv.a })
+		revokeCall := 0
+		P, A, err := w.login(func() harness.AuthAnswer {
+			revokeCall++
+			if rv.name == "first-call-unavailable-then-ok" && revokeCall > 1 {
+				return ans(200, "{}")
+			}
+			return rv.a
+		})
 		if err != nil {
 			panic(explore.HarnessError{Msg: "C19: " + err.Error()})
 		}
@@ -270,17 +286,19 @@ func c19Run(c *fw.Ctx) {
 			hdr.Set("Cookie", w.auth.CookieName+"=Zm9yZ2VkLWNvb2tpZS12YWx1ZQ")
 		}
 		body := url.Values{"redirect_uri": {form["redirect_uri"]}, "sig": {form["sig"]}, "ts": {form["ts"]}}.Encode()
-		w.revoked = false
+		w.revoked, w.revokeFailed, w.revokeCalls = false, false, 0
 		s3 := w.auth.Do(harness.NewRequest("POST", "/"+w.auth.Slug+"/sign_out", harness.AuthHost, hdr, []byte(body)))
-		revokeCalls, revokeOK := 0, false
+		// revoked = the identity provider was asked and accepted every revocation request made
+		revokeCalls, revokeOK := 0, true
 		for _, cl := range s3.Calls {
 			if cl.Endpoint == "revoke" {
 				revokeCalls++
-				if strings.HasPrefix(cl.Answer, "200") {
-					revokeOK = true
+				if !strings.HasPrefix(cl.Answer, "200") {
+					revokeOK = false
 				}
 			}
 		}
+		revokeOK = revokeOK && revokeCalls > 0
 		cleared := false
 		if ck := s3.Cookie(w.auth.CookieName); ck != nil && ck.Value == "" {
 			cleared = true
@@ -345,7 +363,7 @@ func init() {
 	fw.Register(&fw.Check{
 		ID:    "C19",
 		Level: "model_checking",
-		Rule: "every history of the family: IdP issuing {a refresh token, none}; full browser login through the REAL proxy -> REAL authenticator (back channel over loopback) -> scripted stateful IdP (9 requests), optionally (an hour later, so that the authenticator's own cookie is past its lifetime while the proxy session lives on) a token refresh through the authenticator and a further revalidation of the proxy session, sign-out at the proxy (plain, or carrying X-Forwarded-Host naming a foreign / sibling host, or X-Forwarded-Proto), GET of the signed authenticator URL, POST confirmation with {session cookie, no cookie, forged cookie} x signed URL {fresh, replayed after 1 s, replayed after 301 s, tampered signature, tampered return address, re-signed out-of-domain return address} x IdP revoke outcome {200, 400, 401, 403, 404, 429, 500, 503, connection reset}, then reuse of the saved proxy cookie after {10 s, validity TTL + 10 s (thorough: token lifetime + 100 s, one day)}; " +
+		Rule: "every history of the family: IdP issuing {a refresh token, none}; full browser login through the REAL proxy -> REAL authenticator (back channel over loopback) -> scripted stateful IdP (9 requests), optionally (an hour later, so that the authenticator's own cookie is past its lifetime while the proxy session lives on) a token refresh through the authenticator and a further revalidation of the proxy session, sign-out at the proxy (plain, or carrying X-Forwarded-Host naming a foreign / sibling host, or X-Forwarded-Proto), GET of the signed authenticator URL, POST confirmation with {session cookie, no cookie, forged cookie} x signed URL {fresh, replayed after 1 s, replayed after 301 s, tampered signature, tampered return address, re-signed out-of-domain return address} x IdP revoke outcome {200, 400, 401, 403, 404, 429, 500, 503, connection reset, first request 503 and any later one 200}, then reuse of the saved proxy cookie after {10 s, validity TTL + 10 s (thorough: token lifetime + 100 s, one day)}; " +
 			"oracle = combined-state model: proxy clears its cookie and sends the browser to the authenticator with a return address on the same host that the authenticator's own checks accept; the authenticator clears its cookie and returns the browser only after the IdP accepted the revocation, otherwise >= 500 page and cookie kept; nothing happens for an invalid signed URL; after a successful revoke the old proxy cookie is refused at the first request whose revalidation is due; " +
 			"(provider-revocation) GoogleProvider.Revoke and OktaProvider.Revoke at their own API against 12 identity-provider answers x session {with, without} refresh token: success may be reported only for a 200 or the documented already-revoked answer; states = histories executed (each on the real code, so also traces_validated_against_impl), transitions = requests; distinct_nontrivial = distinct (revoke outcome, confirmation kind, URL kind, reuse gap, status, cleared, revoked, served)",
 		Assumptions:    []string{"Okta flavour; the IdP is scripted but stateful (a revoked token is reported inactive afterwards)", "virtual clock shared by both services"},
